@@ -221,11 +221,17 @@ func poolsReplay(in json.RawMessage, res *vh.Result) error {
 				case "Append":
 					held.grow(vh.Int(step["len"]), vh.Int(step["cap"]))
 				case "Reslice":
-					l, _ := held.lenCap()
-					if vh.Int(step["len"]) < l {
+					// the script's capacities are the model's; which buffer the real sync.Pool handed out is not
+					// compared, so the real capacity may be smaller: stay within it
+					l, c := held.lenCap()
+					nl := vh.Int(step["len"])
+					if nl > c {
+						nl = c
+					}
+					if nl < l {
 						reslicedShort = true
 					}
-					held.reslice(vh.Int(step["len"]))
+					held.reslice(nl)
 				case "Foreign":
 					held = poolForeign(kind, vh.Int(step["len"]), vh.Int(step["cap"]))
 				case "Put":
